@@ -1,5 +1,6 @@
 (* C06 - a run stops exactly at the first non-OK status or at the timeout, and says which. *)
 From HclV Require Import Base Expr Machine MachineSpec MachineProofs Generated.
+From HclV Require TextLevelSpec TextLevelProofs.
 Open Scope string_scope.
 Open Scope N_scope.
 
@@ -72,3 +73,11 @@ Theorem C06_tables :
                    o_show_disassembly default_options].
 Proof. vm_compute. repeat split; reflexivity. Qed.
 Print Assumptions C06_tables.
+
+(* ---- END TO END, from the program TEXT (TextLevelSpec.v / TextLevelProofs.v): the user's file (valid
+   UTF-8) after the compiled preamble, lexed with any Unicode classification, parsed with the compiled
+   tier table, built with the compiled component table; states = those reachable by loading an
+   image and stepping.  No hypothesis a user cannot check by reading the file. ------------------- *)
+Theorem C06_text_level : TextLevelSpec.stmt_text_run_stops_exactly.
+Proof. exact TextLevelProofs.text_run_stops_exactly_holds. Qed.
+Print Assumptions C06_text_level.
